@@ -804,7 +804,7 @@ fn fd_cfg(rng: &mut Rng) -> (String, u64, u64, u64, u64) {
 }
 
 pub fn gen_fd(seed: u64, tier: &Tier, shard: usize, nshards: usize, emit: &mut dyn FnMut(String)) {
-    let ncases = if tier.thorough { 12_000 } else { 800 };
+    let ncases = if tier.thorough { 16_000 } else { 2_400 };
     for i in 0..ncases {
         if i % nshards != shard {
             continue;
@@ -866,7 +866,7 @@ pub fn gen_fd(seed: u64, tier: &Tier, shard: usize, nshards: usize, emit: &mut d
 // cluster suite: several real nodes, arbitrary schedules
 
 pub fn gen_cluster(seed: u64, tier: &Tier, shard: usize, nshards: usize, emit: &mut dyn FnMut(String)) {
-    let ncases = if tier.thorough { 6_000 } else { 320 };
+    let ncases = if tier.thorough { 8_000 } else { 1_200 };
     for i in 0..ncases {
         if i % nshards != shard {
             continue;
